@@ -1818,3 +1818,407 @@ func checkLookupKeysShareNoMemory(w *core.World, r *core.Report, rule string) {
 	r.Check(bad == "" && n >= 2, rule, "db: the default and the translation key share no memory", badPos, fmt.Sprintf("%d stores to LookupKey.Default/Translation, none appends to the other key", n),
 		"the translation key is built in the spare capacity of the default key: a back end that rewrites a key in place (the filesystem back end shifts the type byte of each) changes both, so the same write lands under another name than the other back ends and the documented layout use: "+bad)
 }
+
+// checkInitIgnoresRequestInput (C07 R14): the engine's initialisation runs once per engine object -
+// at every request when an engine is made per request, once in a lifetime when it is long-lived.
+// Whatever it decides on the request's input is therefore decided at different requests in the two
+// set-ups (seeded change C07-O moved "empty input restarts the session" there). In the init role no
+// branch condition derives from the input parameter: the input is only recorded and restored.
+func checkInitIgnoresRequestInput(w *core.World, r *core.Report, rule string) {
+	er := resolveEngineRoles(w)
+	ini := er.Init
+	if ini == nil {
+		r.Undecided(rule, "engine init", token.NoPos, "role not resolved")
+		return
+	}
+	r.Touch(core.QName(ini))
+	var inputs []*ssa.Parameter
+	for _, p := range ini.Params {
+		if core.ByteLike(p.Type()) {
+			inputs = append(inputs, p)
+		}
+	}
+	bad := ""
+	var badPos token.Pos
+	n := 0
+	for _, b := range ini.Blocks {
+		iff, ok := b.Instrs[len(b.Instrs)-1].(*ssa.If)
+		if !ok {
+			continue
+		}
+		n++
+		roots, _ := core.DeepSources(iff.Cond, nil)
+		seen := map[ssa.Value]bool{}
+		var walk func(v ssa.Value, d int)
+		walk = func(v ssa.Value, d int) {
+			if v == nil || seen[v] || d > 6 {
+				return
+			}
+			seen[v] = true
+			for _, p := range inputs {
+				if v == ssa.Value(p) {
+					bad = fmt.Sprintf("the branch at %s depends on the request input", w.Pos(iff.Pos()))
+					badPos = iff.Cond.Pos()
+				}
+			}
+			switch t := v.(type) {
+			case *ssa.BinOp:
+				walk(t.X, d+1)
+				walk(t.Y, d+1)
+			case *ssa.UnOp:
+				walk(t.X, d+1)
+			case *ssa.Call:
+				if _, isB := t.Call.Value.(*ssa.Builtin); isB {
+					for _, a := range t.Call.Args {
+						walk(a, d+1)
+					}
+				}
+			case *ssa.Phi:
+				for _, e := range t.Edges {
+					walk(e, d+1)
+				}
+			case *ssa.Convert:
+				walk(t.X, d+1)
+			case *ssa.Slice:
+				walk(t.X, d+1)
+			}
+		}
+		walk(iff.Cond, 0)
+		for _, rt := range roots {
+			walk(rt, 0)
+		}
+	}
+	r.Check(bad == "" && n > 0, rule, "engine init: no decision on the request input", badPos, fmt.Sprintf("%d branch conditions, none derives from the input parameter", n),
+		"the once-per-engine initialisation decides something on the request's input: a per-request engine decides it at every request, a long-lived engine only at its first - the two then stand at different nodes for the same history: "+bad)
+}
+
+// checkResultFlagsAlwaysApplied (C20 R15, C06 R13): external code blocks a session by returning
+// TERMINATE in Result.FlagSet. The request must end blocked whatever else happens to the result -
+// also when the cache refuses the content it came with. In the function that applies the flag
+// lists (consuming reads of Result.FlagSet), every path from the entry to a return passes that
+// read, or the failure edge of the external call itself (a failed call has no result to apply).
+func checkResultFlagsAlwaysApplied(w *core.World, r *core.Report, rule string) {
+	n := 0
+	for _, fn := range w.LibFuncs {
+		var reads []ssa.Instruction
+		for _, in := range allInstrs(fn) {
+			v, ok := in.(ssa.Value)
+			if !ok {
+				continue
+			}
+			if tn, f, ok := core.LoadedField(v); ok && tn == "resource.Result" && f == "FlagSet" && consumedValue(v) {
+				reads = append(reads, in)
+			}
+		}
+		if len(reads) == 0 {
+			continue
+		}
+		n++
+		r.Touch(core.QName(fn))
+		cut := core.NewCut().AddInstr(reads...)
+		for _, c := range core.Calls(fn) {
+			if core.CallName(c) == "dynamic:resource.EntryFunc" {
+				cut.AddEdge(errNonNilEdges(callErr(c))...)
+			}
+		}
+		// a helper that is handed the list itself (applyFlags(r.FlagSet, ...)) is covered by the read.
+		// Start behind the external call where the function makes it (returns before it have no
+		// result to apply), at the entry where the result comes in as a parameter.
+		starts := []core.Point{}
+		for _, c := range core.Calls(fn) {
+			if core.CallName(c) == "dynamic:resource.EntryFunc" {
+				starts = append(starts, core.After(c.(ssa.Instruction)))
+			}
+		}
+		if len(starts) == 0 {
+			starts = append(starts, core.Entry(fn))
+		}
+		var hit ssa.Instruction
+		var path []*ssa.BasicBlock
+		for _, st := range starts {
+			if h, p := core.Reach(st, core.IsReturn, cut); h != nil {
+				hit, path = h, p
+			}
+		}
+		var pos token.Pos
+		if hit != nil {
+			pos = hit.Pos()
+		}
+		r.Check(hit == nil, rule, core.QName(fn)+": requested flags applied on every path", pos, "every return passes the application of Result.FlagSet or the failure edge of the external call",
+			"the flags external code asked for can be dropped: a return is reached without applying them although the call succeeded (the cache refused the content, say) - a requested TERMINATE is lost and the session keeps running: "+w.PathString(path))
+	}
+	r.Floor(rule, "functions applying Result.FlagSet", n, 1)
+}
+
+// checkLanguageDerefGuarded (C08 R14): State.Language is a pointer that stays nil until a language
+// is selected, and SetLanguage leaves it alone for an unknown code - which is client-controlled
+// content. On the request path every dereference of a value loaded from that field lies behind the
+// non-nil edge of a nil test of the field in the same function.
+func checkLanguageDerefGuarded(w *core.World, r *core.Report, rule string, reach map[*ssa.Function]bool) {
+	n := 0
+	for _, fn := range w.LibFuncs {
+		if !reach[fn] || len(fn.Blocks) == 0 {
+			continue
+		}
+		var loads []ssa.Value
+		for _, in := range allInstrs(fn) {
+			if v, ok := in.(ssa.Value); ok {
+				if tn, f, ok := core.LoadedField(v); ok && tn == "state.State" && f == "Language" {
+					loads = append(loads, v)
+				}
+			}
+		}
+		if len(loads) == 0 {
+			continue
+		}
+		cut := core.NewCut()
+		for _, l := range loads {
+			for _, ce := range core.NilTestEdges(l) {
+				if !ce.Val {
+					cut.AddEdge(ce.E)
+				}
+			}
+		}
+		k := 0
+		for _, l := range loads {
+			refs := l.Referrers()
+			if refs == nil {
+				continue
+			}
+			for _, u := range *refs {
+				deref := false
+				switch t := u.(type) {
+				case *ssa.UnOp:
+					deref = t.Op == token.MUL && t.X == l
+				case *ssa.FieldAddr:
+					deref = t.X == l
+				}
+				if !deref {
+					continue
+				}
+				n++
+				k++
+				r.Touch(core.QName(fn))
+				hit, path := core.Reach(core.Entry(fn), core.IsInstr(u), cut)
+				r.Check(hit == nil, rule, fmt.Sprintf("%s: State.Language dereferenced behind a nil test #%d", core.QName(fn), k), u.Pos(), "behind the non-nil edge",
+					"State.Language is dereferenced where it can be nil (no language selected yet, or an unknown code that SetLanguage ignored): a client-chosen content crashes the request: "+w.PathString(path))
+			}
+		}
+	}
+	r.Floor(rule, "dereferences of State.Language on the request path", n, 3)
+}
+
+// checkHandleLanguageIsTheApplications (C18 R13): the session's language reaches a lookup through
+// the context; the language set on a store handle belongs to the application (ToKey prefers it over
+// the context). The library never sets it: outside package db and its back ends no library function
+// calls SetLanguage on a db.Db or DbBase - a handle shared by sessions would otherwise stay pinned
+// to the language of whoever looked something up last.
+func checkHandleLanguageIsTheApplications(w *core.World, r *core.Report, rule string) {
+	bad := ""
+	var badPos token.Pos
+	n := 0
+	for _, fn := range w.LibFuncs {
+		pk := core.PkgOf(fn)
+		if pk == "db" || strings.HasPrefix(pk, "db/") {
+			continue
+		}
+		n++
+		for _, c := range core.Calls(fn) {
+			name := core.CallName(c)
+			if name == "db.Db.SetLanguage" || name == "db.(*DbBase).SetLanguage" || (strings.HasPrefix(name, "db/") && strings.HasSuffix(name, ").SetLanguage")) {
+				bad = fmt.Sprintf("%s calls %s at %s", core.QName(fn), name, w.Pos(c.Pos()))
+				badPos = c.Pos()
+			}
+		}
+	}
+	r.Check(bad == "" && n > 0, rule, "the library never sets the language of a store handle", badPos, fmt.Sprintf("%d library functions outside package db, none calls Db.SetLanguage", n),
+		"the library sets the language on a store handle: ToKey prefers it over the context, so lookups made later through that handle - by the same session after a switch, or by another session sharing the resource - are answered in that language: "+bad)
+}
+
+// checkLabelsResolvedAfterBrowseEntries (C18 R14): menu labels are looked up through the resource
+// (in the session's language) by the menu's resolver - the method of Menu that calls
+// Resource.GetMenu. The lateral 'next'/'previous' entries are added to the menu by the browse step
+// of Menu.Render (the method of Menu that Render calls and that puts the browse entries). Their
+// labels are only translated if the resolver runs after that step: in Menu.Render every call of
+// the resolver is reachable only through the browse step.
+func checkLabelsResolvedAfterBrowseEntries(w *core.World, r *core.Report, rule string) {
+	render := anchor(w, r, "render", "(*Menu).Render")
+	if render == nil {
+		return
+	}
+	var resolver, browse *ssa.Function
+	for _, fn := range w.FuncsIn("render") {
+		if fn.Signature.Recv() == nil || core.TypeName(fn.Signature.Recv().Type()) != "*render.Menu" {
+			continue
+		}
+		if len(core.CallsTo(fn, "resource.Resource.GetMenu")) > 0 && fn != render {
+			resolver = fn
+		}
+	}
+	for _, c := range core.Calls(render) {
+		g := core.StaticCallee(c)
+		if g == nil || g.Signature.Recv() == nil || core.PkgOf(g) != "render" {
+			continue
+		}
+		reads := false
+		for _, in := range allInstrs(g) {
+			if v, ok := in.(ssa.Value); ok {
+				if _, f, ok := core.LoadedField(v); ok && (f == "canNext" || f == "canPrevious") {
+					reads = true
+				}
+			}
+		}
+		if reads && len(core.CallsTo(g, "render.(*Menu).Put")) > 0 {
+			browse = g
+		}
+	}
+	if resolver == nil || browse == nil {
+		r.Undecided(rule, "render.(*Menu).Render: resolver / browse step", render.Pos(), "roles not resolved")
+		return
+	}
+	r.Touch(core.QName(render))
+	cut := core.NewCut()
+	for _, c := range core.Calls(render) {
+		if core.StaticCallee(c) == browse {
+			cut.AddInstr(c.(ssa.Instruction))
+		}
+	}
+	n := 0
+	bad := ""
+	var badPos token.Pos
+	for _, c := range core.Calls(render) {
+		if core.StaticCallee(c) != resolver {
+			continue
+		}
+		n++
+		if hit, path := core.Reach(core.Entry(render), core.IsInstr(c.(ssa.Instruction)), cut); hit != nil {
+			bad = "labels are resolved at " + w.Pos(c.Pos()) + " before the browse entries are added: " + w.PathString(path)
+			badPos = c.Pos()
+		}
+	}
+	r.Check(bad == "" && n > 0, rule, "render.(*Menu).Render: labels resolved after the browse entries were added", badPos, fmt.Sprintf("%d resolver call(s), all behind the browse step", n),
+		"the 'next'/'previous' entries of a paged menu are printed with their raw symbols: their labels never reach the resource, so neither the session's language nor the default entry is used while the other items of the same menu are translated: "+bad)
+}
+
+// checkDownJudgesTopOnly (C03 R18): "the first matching INCMP decides the move" and "unmatched input
+// goes to the catch node" both end in State.Down(target). A descent may be refused for the depth
+// limit and for the immediate self-move only; a node that sits deeper in the stack (the catch node
+// under a help page opened from it, an ancestor a menu jumps to by name) must be enterable again.
+// In State.Down the only element of ExecPath that is read is the last one: every index into the
+// path is len-1, and the path is neither ranged over nor handed to a searching function.
+func checkDownJudgesTopOnly(w *core.World, r *core.Report, rule string) {
+	down := anchor(w, r, "state", "(*State).Down")
+	if down == nil {
+		return
+	}
+	isPath := func(v ssa.Value) bool {
+		for _, s := range core.Sources(v) {
+			if tn, f, ok := core.LoadedField(s); ok && tn == "state.State" && f == "ExecPath" {
+				return true
+			}
+		}
+		return false
+	}
+	bad := ""
+	var badPos token.Pos
+	n := 0
+	for _, in := range allInstrs(down) {
+		switch t := in.(type) {
+		case *ssa.IndexAddr:
+			if !isPath(t.X) {
+				continue
+			}
+			n++
+			okIdx := false
+			if bo, ok := core.Strip(t.Index).(*ssa.BinOp); ok && bo.Op == token.SUB {
+				if k, ok := core.ConstInt(bo.Y); ok && k == 1 {
+					if c, ok := core.Strip(bo.X).(*ssa.Call); ok && core.IsCallTo(c, "builtin.len") && isPath(c.Call.Args[0]) {
+						okIdx = true
+					}
+				}
+			}
+			if !okIdx {
+				bad = "the path is read at an index other than len-1 at " + w.Pos(t.Pos())
+				badPos = t.Pos()
+			}
+		case *ssa.Range:
+			if isPath(t.X) {
+				bad = "the path is ranged over at " + w.Pos(t.Pos())
+				badPos = t.Pos()
+			}
+		case ssa.CallInstruction:
+			if _, isB := t.Common().Value.(*ssa.Builtin); isB {
+				continue
+			}
+			name := core.CallName(t)
+			if strings.HasPrefix(name, "fmt.") || strings.Contains(name, "logging") {
+				continue
+			}
+			for _, a := range core.CallArgs(t) {
+				if isPath(a) {
+					bad = fmt.Sprintf("the path is handed to %s at %s", name, w.Pos(t.Pos()))
+					badPos = t.Pos()
+				}
+			}
+		}
+	}
+	r.Check(bad == "" && n > 0, rule, "state.(*State).Down: only the top of the stack is compared with the target", badPos, fmt.Sprintf("%d read(s) of the path, all at len-1", n),
+		"a descent is refused for a node that is somewhere on the stack, not just on top: the catch node cannot be entered again from a page opened from it, a matching INCMP whose target is an ancestor no longer moves - Exec fails instead: "+bad)
+}
+
+// checkRunHasNoStepBudget (C03 R19): the property quantifies over any number of INCMP lines after a
+// HALT; every one of them is an instruction Vm.Run steps through, matching or not. Vm.Run stops for
+// an error of a handler, TERMINATE, WAIT and the end of the code - not for a count of instructions:
+// no branch condition in Vm.Run (or the step helper only it calls) compares a counter, i.e. an
+// integer phi that is incremented by a constant around the loop.
+func checkRunHasNoStepBudget(w *core.World, r *core.Report, rule string) {
+	run := anchor(w, r, "vm", "(*Vm).Run")
+	if run == nil {
+		return
+	}
+	bad := ""
+	var badPos token.Pos
+	n := 0
+	for _, in := range allInstrs(run) {
+		bo, ok := in.(*ssa.BinOp)
+		if !ok {
+			continue
+		}
+		switch bo.Op {
+		case token.LSS, token.LEQ, token.GTR, token.GEQ, token.EQL, token.NEQ:
+		default:
+			continue
+		}
+		n++
+		for _, side := range []ssa.Value{bo.X, bo.Y} {
+			for _, s := range core.Sources(side) {
+				if inc, ok := s.(*ssa.BinOp); ok && inc.Op == token.ADD {
+					// the incremented value itself is compared: steps += 1; if steps > limit
+					if _, isC := core.ConstInt(inc.Y); isC {
+						s = core.Strip(inc.X)
+					}
+				}
+				phi, ok := s.(*ssa.Phi)
+				if !ok || !isIntegerType(phi.Type()) {
+					continue
+				}
+				for _, e := range phi.Edges {
+					if inc, ok := e.(*ssa.BinOp); ok && inc.Op == token.ADD {
+						if _, isC := core.ConstInt(inc.Y); isC && core.Strip(inc.X) == ssa.Value(phi) {
+							bad = "an instruction counter is compared at " + w.Pos(bo.Pos())
+							badPos = bo.Pos()
+						}
+					}
+				}
+			}
+		}
+	}
+	r.Touch(core.QName(run))
+	r.Check(bad == "" && n > 0, rule, "vm.(*Vm).Run: no budget of instructions", badPos, fmt.Sprintf("%d comparisons, none on a loop counter", n),
+		"Vm.Run gives up after a number of instructions: a node with more INCMP lines than the budget cannot be routed at all - neither the first match moves nor does unmatched input reach the catch node: "+bad)
+}
+
+func isIntegerType(t types.Type) bool {
+	b, ok := t.Underlying().(*types.Basic)
+	return ok && b.Info()&types.IsInteger != 0
+}
